@@ -400,5 +400,209 @@ theorem step_delete : ∀ (fuel : Nat) (o : ObjId) (st : St), Step s0 st (delete
             · exact Step.refl _ _
         exact step_kill o (Cov.of_ext hext hcov0)
 
+theorem step_updateReverse (fuel : Nat) (d rd : Side) (o : ObjId) (a : Attr) (old v : Option ObjId) (st : St) :
+    Step s0 st (updateReverse sch fuel d rd o a old v st).st := by
+  unfold updateReverse
+  split
+  · apply step_bind
+    · split
+      · exact Step.refl _ _
+      · split
+        · exact Step.refl _ _
+        · split
+          · exact step_delete _ _ _
+          · split
+            · exact Step.refl _ _
+            · exact step_attrClearRev _ _ _
+    · intro st1 _
+      split
+      · exact Step.refl _ _
+      · exact step_attrSetRev _ _ _ _
+  · apply step_bind
+    · split
+      · exact Step.refl _ _
+      · exact step_reverseRemove _ _ _ _
+    · intro st1 _
+      split
+      · exact Step.refl _ _
+      · exact step_reverseAdd _ _ _ _
+
+theorem step_attrSetTop (fuel : Nat) (o : ObjId) (a : Attr) (v : Option ObjId) (st : St) :
+    Step s0 st (attrSetTop sch fuel o a v st).st := by
+  unfold attrSetTop
+  split
+  · exact Step.refl _ _
+  · split
+    · split
+      · exact Step.refl _ _
+      · simp only
+        split
+        · exact step_logRef o a
+        · exact (step_setRef o a v).trans (step_updateReverse _ _ _ _ _ _ _ _)
+    · exact Step.refl _ _
+
+/-- `SetInstance.add`: its last step has no undo, but then the call has succeeded -/
+theorem step_collAdd (o : ObjId) (c : Attr) (items : List ObjId) (st : St) (res : Res)
+    (hres : collAdd sch o c items st = res) (hcond : ∃ e st', res = .err e st') : Step s0 st res.st := by
+  unfold collAdd at hres
+  split at hres
+  · rw [← hres]; exact Step.refl _ _
+  · split at hres
+    · rename_i d rd _ _
+      simp only at hres
+      generalize hr : (if (!rd.isColl) = true then _ else _ : Res) = r at hres
+      have hstep : Step s0 st r.st := by
+        rw [← hr]
+        split
+        · exact step_iter (fun item st => step_attrSetRev item _ o st) _ _
+        · exact step_reverseAdd _ _ _ _
+      cases r with
+      | err e st1 => rw [← hres]; exact hstep
+      | ok st1 =>
+        simp only [Res.bind] at hres
+        obtain ⟨e, st', habs⟩ := hcond
+        rw [← hres] at habs; cases habs
+    · rw [← hres]; exact Step.refl _ _
+
+theorem step_collRemove (fuel : Nat) (o : ObjId) (c : Attr) (items : List ObjId) (st : St) (res : Res)
+    (hres : collRemove sch fuel o c items st = res) (hcond : ∃ e st', res = .err e st') : Step s0 st res.st := by
+  unfold collRemove at hres
+  split at hres
+  · rw [← hres]; exact Step.refl _ _
+  · split at hres
+    · rename_i d rd _ _
+      simp only at hres
+      generalize hr : (if (!rd.isColl) = true then _ else _ : Res) = r at hres
+      have hstep : Step s0 st r.st := by
+        rw [← hr]
+        split
+        · split
+          · exact step_iter (fun x st => step_delete _ x st) _ _
+          · exact step_iter (fun item st => step_attrClearRev item _ st) _ _
+        · exact step_reverseRemove _ _ _ _
+      cases r with
+      | err e st1 => rw [← hres]; exact hstep
+      | ok st1 =>
+        simp only [Res.bind] at hres
+        obtain ⟨e, st', habs⟩ := hcond
+        rw [← hres] at habs; cases habs
+    · rw [← hres]; exact Step.refl _ _
+
+theorem step_alloc (e : EntId) (st : St) (hn : st.store.n = s0.n) :
+    Step s0 st ((st.setStore (st.store.alloc e)).log (.created st.store.n)) := by
+  apply Step.push
+  intro s'' ⟨hn'', hrows⟩
+  refine ⟨rfl, fun p hp => ?_⟩
+  obtain ⟨h1, h2, h3, h4⟩ := hrows p hp
+  have hpn : p ≠ st.store.n := by rw [hn]; exact Nat.ne_of_lt hp
+  refine ⟨?_, ?_, ?_, ?_⟩
+  · have : (if p = st.store.n then e else st.store.ent p) = st.store.ent p := if_neg hpn
+    rw [← this]; exact h1
+  · intro b
+    have : (if p = st.store.n then none else st.store.ref p b) = st.store.ref p b := if_neg hpn
+    rw [← this]; exact h2 b
+  · intro b y
+    have : (if p = st.store.n then false else st.store.mem p b y) = st.store.mem p b y := if_neg hpn
+    rw [← this]; exact h3 b y
+  · intro hc
+    have hc' : ¬ Cov (Undo.created st.store.n :: st.trail) p := by
+      intro ⟨e', he', hw⟩
+      rcases List.mem_cons.mp he' with rfl | he'
+      · exact hpn hw
+      · exact hc ⟨e', he', hw⟩
+    have h5 := h4 hc'
+    have e1 : (undo1 s'' (Undo.created st.store.n)).alive p = s''.alive p := by
+      show (if p = st.store.n then false else s''.alive p) = s''.alive p
+      exact if_neg hpn
+    have e2 : (st.store.alloc e).alive p = st.store.alive p := by
+      show (if p = st.store.n then true else st.store.alive p) = st.store.alive p
+      exact if_neg hpn
+    rw [e1, h5, e2]
+
+theorem step_create (fuel : Nat) (e : EntId) (vals : List (Attr × Val)) (st : St) (hn : st.store.n = s0.n) :
+    Step s0 st (create sch fuel e vals st).st := by
+  unfold create
+  simp only
+  split
+  · exact Step.refl _ _
+  · refine (step_alloc e st hn).trans ?_
+    apply step_iter
+    intro a s
+    split
+    · split
+      · exact (step_fresh_ref _ _ _ (by rw [hn]; exact Nat.le_refl _)).trans (step_updateReverse _ _ _ _ _ _ _ _)
+      · exact step_setCollCore (fun x st => step_delete _ x st) true _ _ _ _ _ rfl (Or.inl rfl)
+    · exact Step.refl _ _
+
+/-- every user call that fails leaves a trail that restores the rows of all objects that existed before -/
+theorem run1_err_restores {op : Op} {e : Err} {st : St} (h : run1 sch op { store := s0 } = .err e st) :
+    EqBelow s0.n (undoAll st.trail st.store) s0 := by
+  have hinit : Restores s0 { store := s0 } := by
+    intro s' ⟨hn, hrows⟩
+    refine ⟨hn, fun o ho => ?_⟩
+    obtain ⟨h1, h2, h3, h4⟩ := hrows o ho
+    exact ⟨h4 (by intro ⟨_, he, _⟩; cases he), h1, h2, h3⟩
+  have hstep : Step s0 { store := s0 } st := by
+    have key : ∀ res, run1 sch op { store := s0 } = res → (∃ e st', res = .err e st') → Step s0 { store := s0 } res.st := by
+      intro res hres hcond
+      unfold run1 at hres
+      simp only at hres
+      cases op with
+      | setRef o a v =>
+        simp only at hres
+        split at hres
+        · rw [← hres]; exact Step.refl _ _
+        · split at hres
+          · rw [← hres]; exact Step.refl _ _
+          · split at hres
+            · rw [← hres]; exact step_attrSetTop _ _ _ _ _
+            · split at hres
+              · rw [← hres]; exact Step.refl _ _
+              · rw [← hres]; exact step_attrSetTop _ _ _ _ _
+      | setColl o c items =>
+        simp only at hres
+        split at hres
+        · rw [← hres]; exact Step.refl _ _
+        · split at hres
+          · rw [← hres]; exact Step.refl _ _
+          · split at hres
+            · rw [← hres]; exact Step.refl _ _
+            · exact step_setCollCore (fun x st => step_delete _ x st) false _ _ _ _ _ hres (Or.inr hcond)
+      | add o c items =>
+        simp only at hres
+        split at hres
+        · rw [← hres]; exact Step.refl _ _
+        · split at hres
+          · rw [← hres]; exact Step.refl _ _
+          · split at hres
+            · rw [← hres]; exact Step.refl _ _
+            · exact step_collAdd _ _ _ _ _ hres hcond
+      | remove o c items =>
+        simp only at hres
+        split at hres
+        · rw [← hres]; exact Step.refl _ _
+        · split at hres
+          · rw [← hres]; exact Step.refl _ _
+          · split at hres
+            · rw [← hres]; exact Step.refl _ _
+            · exact step_collRemove _ _ _ _ _ _ hres hcond
+      | clear o c =>
+        simp only at hres
+        split at hres
+        · rw [← hres]; exact Step.refl _ _
+        · exact step_setCollCore (fun x st => step_delete _ x st) false _ _ _ _ _ hres (Or.inr hcond)
+      | create e vals =>
+        simp only at hres
+        split at hres
+        · rw [← hres]; exact Step.refl _ _
+        · rw [← hres]; exact step_create _ _ _ _ rfl
+      | delete o =>
+        simp only at hres
+        split at hres
+        · rw [← hres]; exact step_delete _ _ _
+        · rw [← hres]; exact Step.refl _ _
+    exact key _ h ⟨e, st, rfl⟩
+  exact hstep.restores hinit st.store (Sim.refl _ _ _)
+
 end procs
 end PonyVerif.Model.Rel
